@@ -17,7 +17,15 @@ CID = 'C06'
 
 
 def regen():
-    return T.regen_gen()
+    ok, msg = T.regen_gen()
+    # the Python side's generated file too (Props/C06.v imports it): regenerate BEFORE the proof stage so that a copy left behind by a run on
+    # another tree is never what gets compiled; a failing translator is reported by pypat.py_side (source-proof-broken)
+    try:
+        import pyside
+        pyside.regen_pypattern()
+    except Exception:  # noqa: BLE001
+        pass
+    return ok, msg
 
 
 def setup():
